@@ -6,8 +6,11 @@ bounded resources bounded FOR EVERY PROGRAM AND EVERY SEMANTICS OF THE NON-CONTR
 universally quantified), and the failure cases named in the property are error values.
 -/
 import FontVerif.Lemmas.Interp
+import FontVerif.Lemmas.Composite
 namespace FontVerif.C02
 open FontVerif FontVerif.Interp FontVerif.InterpLemmas
+open FontVerif.CompositeLemmas
+open FontVerif.Composite (GlyphInfo Out recF RECURSION_LIMIT)
 set_option linter.unusedVariables false
 
 /-- a state as produced by `Engine::reset` (any program, definitions, value stack, data state) is Good -/
@@ -217,5 +220,58 @@ example : (iter { recCfg with font := #[0xB0, 1, 0x58, 0xB0, 7, 0x1B, 0xB0, 9, 0
     = .done := by decide +kernel
 example : (iter { recCfg with font := #[0xB0, 1, 0x58, 0xB0, 7, 0x1B, 0xB0, 9, 0x59] } 9 (initSt 0 [] [] [] 8)).vs
     = [7] := by decide +kernel
+
+
+/-! ## Core 2: composite glyph nesting (Model/Composite.lean) -/
+
+/-- `Outlines::outline` is a total function of the glyph table: the recursion is on `33 - recurse_depth`
+    (`recF` is structurally recursive on that number) and each level is a loop over a finite component list.
+    A chain of 33 component edges below the glyph is reported as an error, never followed further. -/
+theorem composite_depth_exceeded_is_error (G : Nat → GlyphInfo) (g : Nat) (hd : Deep G 33 g) :
+    isErr (Composite.outline G g) := by
+  have hp : (G g).present = true := by
+    cases hd with
+    | succ _ _ _ _ _ hg _ _ => rw [hg]; rfl
+  have := deep_is_error G 33 g hd 33 (Nat.le_refl _) {} 0
+  unfold Composite.outline RECURSION_LIMIT
+  cases hg : G g with
+  | readErr => simp [isErr]
+  | empty => rw [hg] at hp; simp [GlyphInfo.present] at hp
+  | simple p c h => simp only []; rw [hg] at this; exact this
+  | composite cs h => simp only []; rw [hg] at this; exact this
+
+/-- a glyph on a cycle of component references (of any length) is an error -/
+theorem composite_cycle_is_error (G : Nat → GlyphInfo) (k g : Nat) (hw : Walk G (k + 1) g g) :
+    isErr (Composite.outline G g) := by
+  apply composite_depth_exceeded_is_error
+  -- a chain of length 33 * (k+1) ≥ 33, cut down to 33
+  have h := cycle_deep G k g hw 33
+  have cut : ∀ m n, Deep G (n + m) g → Deep G n g := by
+    intro m; induction m with
+    | zero => intro n h; exact h
+    | succ m ih => intro n h; exact ih n (deep_mono G (n + m) g h)
+  have he : 33 * (k + 1) = 33 + 33 * k := by omega
+  rw [he] at h
+  exact cut _ _ h
+
+/-- a glyph that lists itself as a component is an error -/
+theorem self_reference_is_error (G : Nat → GlyphInfo) (g : Nat) (cs : List Nat) (h : Bool)
+    (hg : G g = .composite cs h) (hm : g ∈ cs) : isErr (Composite.outline G g) :=
+  composite_cycle_is_error G 0 g (Walk.cons g g g cs h 0 hg hm (Walk.nil g))
+
+/-- non-vacuity: a chain of exactly 32 component edges loads; 33 is the error; a 3-cycle is an error -/
+def chainG (d : Nat) : Nat → GlyphInfo := fun i =>
+  if i < d then .composite [i + 1] false else if i = d then .simple 3 1 false else .empty
+
+example : (Composite.outline (chainG 32) 0).toOption.map (·.points) = some 3 := by decide +kernel
+example : (match Composite.outline (chainG 33) 0 with | .error .recursionLimit => true | _ => false) = true := by
+  decide +kernel
+example : (match Composite.outline (fun i => .composite [(i + 1) % 3] false) 0 with
+    | .error .recursionLimit => true | _ => false) = true := by decide +kernel
+/-- the components before the failing one have been visited: a fan-out-2 DAG of depth d costs 2^(d+1)-1 visits -/
+def dagG (d : Nat) : Nat → GlyphInfo := fun i =>
+  if i < d then .composite [i + 1, i + 1] false else if i = d then .simple 1 1 false else .empty
+example : (Composite.outline (dagG 10) 0).toOption.map (·.visits) = some 2047 := by decide +kernel
+example : (Composite.outline (dagG 10) 0).toOption.map (·.points) = some 1024 := by decide +kernel
 
 end FontVerif.C02
